@@ -310,8 +310,9 @@ impl<'a> G<'a> {
         while s.contains(&close) {
             s = s.replace(&close, "] ]");
         }
-        // a trailing `]` (+ `=`*) directly before the closing bracket could complete a different closer
-        while s.ends_with(']') || s.ends_with('=') {
+        // body + closer must not contain an EARLIER occurrence of the closer (`]=` + `]=]`); apart from
+        // that a body may well end in `]` or `=` (`[=[a]]=]` is a valid level-1 string)
+        while format!("{s}{close}").find(&close) != Some(s.len()) {
             s.push(' ');
         }
         if level == 0 {
